@@ -867,6 +867,17 @@ pub fn check_main<P: Prop>(tier: Tier, seed: u64, workers: usize, extra: Option<
             }
         }
     }
+    // reach guard: seed images that are valid by construction (everything except the grammar-built
+    // ones) must open; if more than 1 % of the cases lost their image that way the run explored
+    // far less than it claims and gives no verdict (a library change that makes good files
+    // unreadable is C01's / C11's to report; here it must not pass as "nothing found")
+    let lost: u64 = outc.stats.counters.iter().filter(|(k, _)| k.starts_with("image_does_not_open.") && !k.ends_with(".grammar")).map(|(_, v)| *v).sum();
+    if lost * 100 > outc.stats.cases.max(1) {
+        eprintln!("HARNESS-ERROR: {lost} of {} cases lost their by-construction-valid image (it did not open): reach collapsed", outc.stats.cases);
+        if exit == 0 {
+            exit = 2;
+        }
+    }
     // evidence
     let wall = outc.wall_s;
     let st = &mut outc.stats;
